@@ -458,6 +458,71 @@ def _last_ret_assign(body, path):
     return None
 
 
+def r2_7(ctx, R, counter, head):
+    ctx.rule("R2.7", "free-list initialisation and lookup: the empty constructor builds slots = collect(map(1..=capacity, "
+                     "Free)) (slot i links to i+1, the last to `capacity` = no slot), head = 0, counter = 0; the slot lookup is "
+                     "slice::get_mut(key) on the pinned slots (None exactly when key is out of range) re-pinned with "
+                     "Pin::new_unchecked; the Occupied-only accessor goes through that lookup")
+    sm, slots_field = R.slot_enum[1], R.slot_enum[2]
+    occ, free = R.slot_variants
+    n = 0
+    for b in R.slotmap_methods:
+        if b.kind == "Closure" or "FromIterator" in b.path:
+            continue
+        for rb, e in returned_exprs(ctx, b):
+            if not (e[0] == "agg" and e[1].startswith(sm + "::")):
+                continue
+            n += 1
+            ops = dict(zip(e[3], e[2]))
+            chain = []
+            x = ops[slots_field]
+            rng = None
+            while x[0] == "call":
+                nm = (x[1] or "")
+                chain.append(nm.split("::")[-1])
+                if nm.endswith("::map"):
+                    mf = x[2][1]
+                    chain.append("map-fn=" + (mf[1] if mf[0] == "fn" else "?"))
+                if "RangeInclusive" in nm and nm.endswith("::new"):
+                    rng = x
+                    break
+                x = x[2][0] if x[2] else ("unknown",)
+            ok_chain = chain[:3] == ["into", "into_boxed_slice", "collect"] and any(c.endswith("::" + free) for c in chain if c.startswith("map-fn="))
+            ok_rng = rng is not None and rng[2][0][0] == "const" and rng[2][0][2] == "1" and strip_refs(rng[2][1])[0] == "param"
+            h, c = ops.get(head[1:]), ops.get(counter[1:])
+            ok_hc = h is not None and c is not None and h[0] == "const" and h[2] == "0" and c[0] == "const" and c[2] == "0"
+            ctx.ob("R2.7", b, "empty-constructor-free-list", ok_chain and ok_rng and ok_hc, b.loc(rb),
+                   "slots <- %s; range %s; head=%s counter=%s" % (" <- ".join(chain), expr_str(rng) if rng else None, expr_str(h) if h else None, expr_str(c) if c else None))
+    ctx.floor("R2.7", "empty-constructors", n, 1)
+    # the lookup used by INSERT/REMOVE/ACCESSOR
+    ins = R.insert_fn
+    fl = ctx.flow(ins)
+    lookups = set()
+    for b in (R.insert_fn, R.remove_fn) + tuple(R.accessor_fns):
+        for bb, t, fn in b.calls():
+            cb = callee_body(ctx.facts, fn)
+            if cb is not None and cb in R.slotmap_methods and re.match(r"core::option::Option<core::pin::Pin<&mut %s<" % re.escape(R.slot_enum[0]), cb.locals[0]):
+                lookups.add(cb.path)
+    ctx.ob("R2.7", "<crate>", "one-shared-slot-lookup", len(lookups) == 1, "", str(sorted(lookups)))
+    for lp in lookups:
+        b = ctx.facts.bodies[lp]
+        lfl = ctx.flow(b)
+        ok = False
+        det = ""
+        for rb, e in returned_exprs(ctx, b):
+            if e[0] == "agg" and e[1].endswith("Option::Some"):
+                v = e[2][0]
+                if v[0] == "call" and (v[1] or "").endswith("new_unchecked"):
+                    src = strip_refs(v[2][0])
+                    gm = [c for c in expr_calls(src) if re.search(r"core::slice::<impl \[T\]>::get_mut$", c[1] or "")]
+                    if gm:
+                        key = strip_refs(gm[0][2][1])
+                        recv = repr(gm[0][2][0])
+                        ok = key[0] == "param" and ("." + slots_field) in recv
+                        det = "get_mut(%s) on .%s" % (expr_str(key), slots_field)
+        ctx.ob("R2.7", b, "lookup=slots.get_mut(key)-repinned", ok, d_loc(b), det)
+
+
 def run(ctx):
     R = roles(ctx)
     R.pop_fn, R.drain_fn, R.insert_fn, R.remove_fn
@@ -468,3 +533,4 @@ def run(ctx):
     r2_4(ctx, R, counter)
     r2_5(ctx, R)
     r2_6(ctx, R)
+    r2_7(ctx, R, counter, res["INSERT"][1] or ".free_head")
